@@ -3,7 +3,9 @@ package main
 import (
 	"fmt"
 	"sort"
+	"strconv"
 	"strings"
+	"unicode/utf8"
 )
 
 // C18, part 3: seeded generator of Go packages exercising every declaration kind genContent
@@ -15,6 +17,7 @@ type c18RandPkg struct {
 	Name   string // package name
 	Region string // "" = main stream
 	Source string
+	Extra  map[string]string // sibling packages the package imports: directory below $GOPATH/src/vt -> source
 	Kinds  map[string]int
 }
 
@@ -31,6 +34,11 @@ type c18g struct {
 	kinds    map[string]int
 	lastKF   string
 	lastKI   string
+	allowed  map[string]bool   // standard packages the signatures of this package may name directly
+	extra    map[string]string // sibling packages
+	foreign  []c18Foreign      // interfaces of other packages that may be embedded / aliased (their import is recorded when used)
+	sib      []string          // types of the sibling package dep (their printed form names the package inner)
+	heavy    int               // number of floats with a very long expansion (kept small: cost inside Coq)
 }
 
 func (g *c18g) id() int { g.n++; return g.n }
@@ -78,29 +86,53 @@ func (g *c18g) typ(own bool) string {
 		case 15:
 			return "struct{}"
 		case 16:
+			if !g.allowed["io"] {
+				continue
+			}
 			g.imports["io"] = true
 			return g.r.pick([]string{"io.Reader", "io.Writer", "io.ReadCloser"})
 		case 17:
+			if !g.allowed["fmt"] {
+				continue
+			}
 			g.imports["fmt"] = true
 			return "fmt.Stringer"
 		case 18:
+			if !g.allowed["time"] {
+				continue
+			}
 			g.imports["time"] = true
 			return g.r.pick([]string{"time.Duration", "time.Time", "*time.Location"})
 		case 19:
+			if !g.allowed["context"] {
+				continue
+			}
 			g.imports["context"] = true
 			return "context.Context"
 		case 20:
+			if !g.allowed["bytes"] {
+				continue
+			}
 			g.imports["bytes"] = true
 			return "*bytes.Buffer"
 		case 21:
+			if !g.allowed["io/fs"] {
+				continue
+			}
 			g.imports["io/fs"] = true
 			return g.r.pick([]string{"fs.FileInfo", "fs.FileMode", "[]fs.DirEntry"})
 		case 22:
+			if !g.allowed["sync"] {
+				continue
+			}
 			g.imports["sync"] = true
 			return "*sync.Mutex"
 		case 23:
 			return g.r.pick([]string{"[]int", "[][]string", "[]any", "[]error", "map[string][]byte", "func(...int) error", "chan<- bool", "uint8", "rune", "uintptr", "complex128", "[]*int"})
 		case 24, 25, 26:
+			if own && len(g.sib) > 0 && g.r.chance(40) {
+				return g.r.pick(g.sib)
+			}
 			if own && len(g.structs) > 0 {
 				t := g.r.pick(g.structs)
 				return g.r.pick([]string{"", "*", "[]"}) + t
@@ -114,6 +146,11 @@ func (g *c18g) typ(own bool) string {
 				return g.r.pick(g.generics) + "[" + g.r.pick([]string{"int", "string", "[]byte"}) + "]"
 			}
 		case 29:
+			if g.allowed["os"] && g.r.bool() {
+				// aliases declared in os for types of io/fs: the printed signature names io/fs, which the package does not import
+				g.imports["os"] = true
+				return g.r.pick([]string{"os.FileMode", "os.FileInfo", "[]os.DirEntry", "*os.File", "os.Signal"})
+			}
 			return "interface{ Len() int }"
 		}
 	}
@@ -162,6 +199,89 @@ func (g *c18g) signature(hiddenOK bool) string {
 	return out
 }
 
+var c18Digits = "0123456789"
+
+// intLit: integer constants around the boundaries of every representation go/constant uses
+// (int64, big.Int), and rune constants including non-printable ones.
+func (g *c18g) intLit() string {
+	switch g.r.intn(5) {
+	case 0:
+		return g.r.pick([]string{"0", "1", "-7", "42", "3 * 5 - 1", "1 << 70", "-(1 << 100) + 3", "100000000000000000000000000000000000007"})
+	case 1:
+		return g.r.pick([]string{"1<<63 - 1", "1 << 63", "-(1 << 63)", "-(1 << 63) - 1", "1<<64 - 1", "1 << 64", "1<<64 + 1", "9223372036854775807", "9223372036854775808", "18446744073709551615", "18446744073709551616",
+			"-9223372036854775808", "-9223372036854775809", "0x7fffffffffffffff", "0xffffffffffffffff", "1<<62 + 1<<61", "1 << 500", "-(1 << 505)"})
+	case 2:
+		return g.r.pick([]string{"'x'", "'\\u00e9'", "'\\x00'", "'\\a'", "'\\n'", "'\\''", "'\\\\'", "'\\u2028'", "'\\U0010FFFF'", "'\\x7f'", "'世'", "'\\ufffd'", "'a' + 1", "'\\377'"})
+	case 3:
+		// up to 150 digits (go/types rejects integer constants beyond 512 bits)
+		n := 20 + g.r.intn(130)
+		var b strings.Builder
+		if g.r.chance(30) {
+			b.WriteString("-")
+		}
+		b.WriteByte(c18Digits[1+g.r.intn(9)])
+		for i := 1; i < n; i++ {
+			b.WriteByte(c18Digits[g.r.intn(10)])
+		}
+		return b.String()
+	default:
+		e := []int{18, 19, 20, 38, 39, 77, 100, 150}[g.r.intn(8)]
+		return "1" + strings.Repeat("0", e) + g.r.pick([]string{"", " - 1", " + 1"})
+	}
+}
+
+// strLit: string constants of length 0, 1, a few, around the 72-rune limit of constant.Value.String,
+// several hundred and a few thousand bytes; with quotes, backslashes, control characters,
+// multi-byte runes and bytes that are not valid UTF-8.
+func (g *c18g) strLit() string {
+	var n int
+	switch g.r.intn(8) {
+	case 0:
+		n = 0
+	case 1:
+		n = 1
+	case 2:
+		n = 2 + g.r.intn(9)
+	case 3, 4, 5:
+		n = 55 + g.r.intn(30)
+	case 6:
+		n = 150 + g.r.intn(500)
+	case 7:
+		n = 1000 + g.r.intn(4500)
+	}
+	class := g.r.intn(6)
+	pools := [][]string{
+		{"a", "b", "Z", "0", "9", " ", "-", "_", "x"},
+		{"\"", "\\", "'", "`", "a", "%", "q"},
+		{"\n", "\t", "\r", "\x00", "\x7f", "\a", "b", " "},
+		{"é", "ü", "世", "界", "😀", "\u2028", "\u00a0", "a"},
+		{"\xff", "\xfe", "\xc0", "\x80", "\xed\xa0\x80", "a", "é"},
+	}
+	var b []byte
+	for len(b) < n {
+		pool := pools[0]
+		switch {
+		case class < 5:
+			pool = pools[class]
+		default:
+			pool = pools[g.r.intn(5)]
+		}
+		b = append(b, g.r.pick(pool)...)
+	}
+	x := string(b)
+	if n == 0 {
+		x = ""
+	}
+	lit := strconv.Quote(x)
+	if g.r.chance(15) && !strings.ContainsAny(x, "`\r\x00\a\x7f\ufeff") && utf8.ValidString(x) && x != "" {
+		lit = "`" + x + "`"
+	}
+	if g.r.chance(10) {
+		lit += " + " + strconv.Quote(g.r.pick([]string{"", "tail", "\"q\""}))
+	}
+	return lit
+}
+
 func (g *c18g) declConst(exported bool) {
 	k := g.id()
 	pre := "K"
@@ -171,13 +291,13 @@ func (g *c18g) declConst(exported bool) {
 	switch g.r.intn(14) {
 	case 0:
 		name := fmt.Sprintf("%sI%d", pre, k)
-		g.pf("const %s = %s\n", name, g.r.pick([]string{"0", "1", "-7", "42", "1 << 70", "-(1 << 100) + 3", "0x7fffffffffffffff", "18446744073709551615", "1<<64 + 1", "'x'", "'\\u00e9'", "100000000000000000000000000000000000007", "3 * 5 - 1"}))
+		g.pf("const %s = %s\n", name, g.intLit())
 		if exported {
 			g.lastKI = name
 		}
 		g.use("const-untyped-int")
 	case 1:
-		g.pf("const %sS%d = %s\n", pre, k, g.r.pick([]string{`""`, `"plain"`, `"with \"quotes\" and \\ backslash"`, "`raw\\n`", `"tab\tnl\n"`, `"café 世界"`, `"\x00\xff bytes"`, `"a" + "b"`}))
+		g.pf("const %sS%d = %s\n", pre, k, g.strLit())
 		g.use("const-untyped-string")
 	case 2:
 		g.pf("const %sB%d = %s\n", pre, k, g.r.pick([]string{"true", "false", "1 < 2", "!true", `"a" == "b"`}))
@@ -187,6 +307,11 @@ func (g *c18g) declConst(exported bool) {
 		v := g.r.pick([]string{"0.5", "2.5", "1.25e2", "3.0", "0x1p-20", "1e22", "1.0 / 4", "(1 << 62) * 1.0", "0.0", "-0.75", "6.103515625e-05", "0x1.fffffffffffffp200", "0x1p-300", "1e3", "123456789.0 / 1024", "0x1p-200 + 1", "7.0", "1 / 8.0"})
 		if g.lastKF != "" && g.r.chance(25) {
 			v = g.lastKF + " * 2 + 0.25"
+		}
+		if g.heavy < 1 && g.r.chance(12) {
+			// many digits / large exponents, still exact binary fractions (numerator and denominator below 4096 bits)
+			g.heavy++
+			v = g.r.pick([]string{"1e100", "1e300", "0x1.fffffffffffffp+1023", "0x1p-600", "(1 << 200) + 0.5", "123456789012345678901234567890123456789.0", "0x1.0000000000000000000000000001p+90", "1e60 / 1024", "-0x1p-149", "(1<<400 + 1) / 0x1p+300"})
 		}
 		g.pf("const %s = %s\n", name, v)
 		if exported {
@@ -204,13 +329,13 @@ func (g *c18g) declConst(exported bool) {
 		}
 		g.use("const-untyped-int")
 	case 7:
-		g.pf("const %sT%d int64 = %s\n", pre, k, g.r.pick([]string{"1 << 40", "-5", "0"}))
+		g.pf("const %sT%d %s\n", pre, k, g.r.pick([]string{"int64 = 1 << 40", "int64 = -5", "int64 = 1<<63 - 1", "int64 = -1 << 63", "uint64 = 1<<64 - 1", "uint64 = 1 << 63", "int8 = -128", "uint = 0", "rune = '\\x00'", "rune = '\\U0010FFFF'", "byte = '\\n'"}))
 		g.use("const-typed")
 	case 8:
 		g.pf("const %sTF%d float64 = %s\n", pre, k, g.r.pick([]string{"0.1", "1e300", "2.5"}))
 		g.use("const-typed")
 	case 9:
-		g.pf("const %sTS%d string = %s\n", pre, k, g.r.pick([]string{`"s"`, `"x\ty"`}))
+		g.pf("const %sTS%d string = %s\n", pre, k, g.strLit())
 		g.use("const-typed")
 	case 10:
 		g.imports["time"] = true
@@ -340,8 +465,12 @@ func (g *c18g) declType(exported bool) {
 		}
 		g.use("alias")
 	case 7:
-		g.imports["io"] = true
-		g.pf("type AI%d = %s\n", k, g.r.pick([]string{"io.Reader", "io.ReadWriteCloser", "error", "interface{ Len() int }"}))
+		if f, ok := g.pickForeign(map[string]bool{}); ok {
+			g.useForeign(f)
+			g.pf("type AI%d = %s\n", k, f.Expr)
+		} else {
+			g.pf("type AI%d = %s\n", k, g.r.pick([]string{"error", "interface{ Len() int }"}))
+		}
 		g.use("alias-iface")
 	case 8:
 		if len(g.generics) > 0 {
@@ -368,6 +497,94 @@ func (g *c18g) declType(exported bool) {
 		}
 		g.use("type-named")
 	}
+}
+
+// interfaces declared in other packages. Embedding (or aliasing) one of them promotes methods whose
+// signatures name packages the generated package does not import itself (Third).
+type c18Foreign struct {
+	Expr    string
+	Import  string
+	Methods []string
+	Third   string
+	Heavy   bool // expensive to type-check from source: used rarely
+}
+
+var c18ForeignIfaces = []c18Foreign{
+	{"fs.FileInfo", "io/fs", []string{"Name", "Size", "Mode", "ModTime", "IsDir", "Sys"}, "time", false},
+	{"fs.DirEntry", "io/fs", []string{"Name", "IsDir", "Type", "Info"}, "", false},
+	{"fs.File", "io/fs", []string{"Stat", "Read", "Close"}, "", false},
+	{"context.Context", "context", []string{"Deadline", "Done", "Err", "Value"}, "time", false},
+	{"image.Image", "image", []string{"ColorModel", "Bounds", "At"}, "image/color", false},
+	{"draw.Image", "image/draw", []string{"ColorModel", "Bounds", "At", "Set"}, "image, image/color", false},
+	{"heap.Interface", "container/heap", []string{"Len", "Less", "Swap", "Push", "Pop"}, "", false},
+	{"hash.Hash", "hash", []string{"Write", "Sum", "Reset", "Size", "BlockSize"}, "", false},
+	{"hash.Hash32", "hash", []string{"Write", "Sum", "Reset", "Size", "BlockSize", "Sum32"}, "", false},
+	{"io.ReadWriteCloser", "io", []string{"Read", "Write", "Close"}, "", false},
+	{"io.ReadSeeker", "io", []string{"Read", "Seek"}, "", false},
+	{"io.Reader", "io", []string{"Read"}, "", false},
+	{"io.Closer", "io", []string{"Close"}, "", false},
+	{"sort.Interface", "sort", []string{"Len", "Less", "Swap"}, "", false},
+	{"error", "", []string{"Error"}, "", false},
+	{"fmt.Stringer", "fmt", []string{"String"}, "", true},
+	{"os.FileInfo", "os", []string{"Name", "Size", "Mode", "ModTime", "IsDir", "Sys"}, "io/fs, time", true},
+	{"flag.Value", "flag", []string{"String", "Set"}, "", true},
+	{"driver.ConnBeginTx", "database/sql/driver", []string{"BeginTx"}, "context", true},
+	{"net.Conn", "net", []string{"Read", "Write", "Close", "LocalAddr", "RemoteAddr", "SetDeadline", "SetReadDeadline", "SetWriteDeadline"}, "time", true},
+}
+
+// one declaration that uses the import whatever the random choices were
+var c18ImportAnchor = map[string]string{
+	"io": "var _ = io.EOF", "fmt": "var _ = fmt.Sprint", "time": "var _ = time.Now", "context": "var _ = context.Background", "bytes": "var _ = bytes.NewBuffer",
+	"io/fs": "var _ = fs.ErrNotExist", "sync": "var _ = sync.NewCond", "errors": "var _ = errors.New", "sort": "var _ = sort.Ints", "image": "var _ = image.Pt",
+	"image/draw": "var _ = draw.Draw", "container/heap": "var _ = heap.Init", "hash": "var _ hash.Hash", "os": "var _ = os.Getpid", "flag": "var _ = flag.Parse",
+	"net": "var _ = net.Dial", "database/sql/driver": "var _ = driver.ErrSkip",
+}
+
+func (g *c18g) useForeign(f c18Foreign) {
+	if f.Import != "" {
+		g.imports[f.Import] = true
+	}
+	if f.Third != "" {
+		g.use("foreign-iface-with-third-package")
+	} else {
+		g.use("foreign-iface")
+	}
+}
+
+// pickForeign returns a foreign interface none of whose methods is in used.
+func (g *c18g) pickForeign(used map[string]bool) (c18Foreign, bool) {
+	if len(g.foreign) == 0 {
+		return c18Foreign{}, false
+	}
+	for try := 0; try < 4; try++ {
+		f := g.foreign[g.r.intn(len(g.foreign))]
+		ok := true
+		for _, m := range f.Methods {
+			if used[m] {
+				ok = false
+			}
+		}
+		if ok {
+			return f, true
+		}
+	}
+	return c18Foreign{}, false
+}
+
+// siblings writes two small packages next to the package (dep imports inner) and makes dep's
+// interfaces and aliases available; the package itself imports dep only.
+func (g *c18g) siblings(dir string) {
+	inner := "vt/" + dir + "/inner"
+	dep := "vt/" + dir + "/dep"
+	g.extra[dir+"/inner"] = "package inner\n\nimport \"time\"\n\ntype T struct{ X int }\n\ntype Clock interface {\n\tNow() time.Time\n\tSince(t T) time.Duration\n}\n\nfunc New() *T { return &T{} }\n"
+	g.extra[dir+"/dep"] = fmt.Sprintf("package dep\n\nimport (\n\t\"time\"\n\n\t%q\n)\n\ntype Alias = inner.T\n\ntype AliasClock = inner.Clock\n\ntype Base interface {\n\tWhen() time.Time\n\tPeer(p *inner.T, more ...inner.T) inner.T\n\tTick(c inner.Clock) error\n}\n\ntype Deep interface {\n\tBase\n\tinner.Clock\n}\n\nfunc Make() *inner.T { return inner.New() }\n", inner)
+	g.imports[dep] = true
+	g.foreign = append(g.foreign,
+		c18Foreign{"dep.Base", dep, []string{"When", "Peer", "Tick"}, "time, inner", false},
+		c18Foreign{"dep.Deep", dep, []string{"When", "Peer", "Tick", "Now", "Since"}, "time, inner", false},
+		c18Foreign{"dep.AliasClock", dep, []string{"Now", "Since"}, "time, inner", false})
+	g.sib = append(g.sib, "dep.Alias", "*dep.Alias", "[]dep.Alias", "dep.AliasClock", "dep.Base")
+	g.use("sibling-packages")
 }
 
 var c18MethNames = []string{"Read", "Write", "Close", "Len", "Less", "Swap", "Get", "Set", "Do", "Call", "Visit", "Printf", "Add", "Next", "Reset", "Sum", "Open", "Lookup", "Walk", "Apply", "Error", "Flush"}
@@ -414,34 +631,22 @@ func (g *c18g) declIface(exported bool) {
 		lines = append(lines, "\t"+h+g.signature(true))
 		g.use("method-unexported")
 	}
-	if g.r.chance(50) {
-		// embedded interfaces; overlapping methods are legal when the signatures are identical
-		switch g.r.intn(8) {
-		case 0:
-			if !used["Read"] {
-				g.imports["io"] = true
-				lines = append(lines, "\tio.Reader")
+	if g.r.chance(60) {
+		// embedded interfaces (depth grows when an own interface that already embeds is embedded again)
+		switch g.r.intn(6) {
+		case 0, 1, 2:
+			if f, ok := g.pickForeign(used); ok {
+				g.useForeign(f)
+				lines = append(lines, "\t"+f.Expr)
+				for _, m := range f.Methods {
+					used[m] = true
+				}
+				if f2, ok := g.pickForeign(used); ok && g.r.chance(30) {
+					g.useForeign(f2)
+					lines = append(lines, "\t"+f2.Expr)
+				}
 			}
-		case 1:
-			if !used["Close"] {
-				g.imports["io"] = true
-				lines = append(lines, "\tio.Closer")
-			}
-		case 2:
-			if !used["String"] {
-				g.imports["fmt"] = true
-				lines = append(lines, "\tfmt.Stringer")
-			}
-		case 3:
-			if !used["Error"] {
-				lines = append(lines, "\terror")
-			}
-		case 4:
-			if !used["Len"] && !used["Less"] && !used["Swap"] {
-				g.imports["sort"] = true
-				lines = append(lines, "\tsort.Interface")
-			}
-		case 5:
+		case 3, 4:
 			if len(g.ifaces) > 0 {
 				lines = append(lines, "\t"+g.r.pick(g.ifaces))
 				lines = lines[len(lines)-1:] // only the embedded one plus nothing else that could conflict
@@ -449,14 +654,9 @@ func (g *c18g) declIface(exported bool) {
 					lines = append(lines, fmt.Sprintf("\tExtra%d(int) error", k))
 				}
 			}
-		case 6:
+		case 5:
 			if len(g.hifaces) > 0 {
 				lines = []string{"\t" + g.r.pick(g.hifaces), fmt.Sprintf("\tMore%d()", k)}
-			}
-		case 7:
-			if !used["Read"] && !used["Write"] && !used["Close"] {
-				g.imports["io"] = true
-				lines = append(lines, "\tio.ReadWriteCloser")
 			}
 		}
 		g.use("iface-embedding")
@@ -484,17 +684,40 @@ func (g *c18g) finish(dir, name, region string) c18RandPkg {
 		hdr.WriteString(")\n\n")
 		// keep every import used whatever the random choices were
 		for _, p := range sortedKeys(g.imports) {
-			base := p[strings.LastIndex(p, "/")+1:]
-			fmt.Fprintf(&hdr, "var _ = %s\n", map[string]string{"io": "io.EOF", "fmt": "fmt.Sprint", "time": "time.Now", "context": "context.Background", "bytes": "bytes.NewBuffer",
-				"fs": "fs.ErrNotExist", "sync": "sync.NewCond", "errors": "errors.New", "sort": "sort.Ints"}[base])
+			if a, ok := c18ImportAnchor[p]; ok {
+				hdr.WriteString(a + "\n")
+			} else if strings.HasSuffix(p, "/dep") {
+				hdr.WriteString("var _ = dep.Make\n")
+			}
 		}
 		hdr.WriteString("\n")
 	}
-	return c18RandPkg{Dir: dir, Name: name, Region: region, Source: hdr.String() + g.b.String(), Kinds: g.kinds}
+	return c18RandPkg{Dir: dir, Name: name, Region: region, Source: hdr.String() + g.b.String(), Extra: g.extra, Kinds: g.kinds}
 }
 
 func c18NewGen(r *rng) *c18g {
-	return &c18g{r: r, imports: map[string]bool{}, kinds: map[string]int{}}
+	g := &c18g{r: r, imports: map[string]bool{}, kinds: map[string]int{}, allowed: map[string]bool{}, extra: map[string]string{}}
+	// each package names only a few standard packages directly, so that packages reached through
+	// promoted methods are often NOT among its direct imports
+	for _, p := range []string{"io", "time", "context", "bytes", "io/fs", "sync"} {
+		if r.chance(30) {
+			g.allowed[p] = true
+		}
+	}
+	for _, p := range []string{"fmt", "os"} {
+		if r.chance(6) {
+			g.allowed[p] = true
+		}
+	}
+	n := r.intn(4)
+	for i := 0; i < n; i++ {
+		f := c18ForeignIfaces[r.intn(len(c18ForeignIfaces))]
+		if f.Heavy && !r.chance(12) {
+			continue
+		}
+		g.foreign = append(g.foreign, f)
+	}
+	return g
 }
 
 func (g *c18g) body(n int) {
@@ -523,6 +746,9 @@ func c18GenMain(r *rng, idx int) c18RandPkg {
 	dir := fmt.Sprintf("m%04d/", idx) + fmt.Sprintf(r.pick(c18DirForms), name)
 	// every main-stream package has at least one identifier-bound exported object
 	g.pf("func Anchor%d() int { return %d }\n\n", idx, idx)
+	if r.chance(35) {
+		g.siblings(dir)
+	}
 	g.body(8 + r.intn(22))
 	return g.finish(dir, name, "")
 }
@@ -540,7 +766,7 @@ func c18GenRegion(r *rng, idx int, region string) c18RandPkg {
 	case "float-const-inexact":
 		n := 1 + r.intn(3)
 		for i := 0; i < n; i++ {
-			g.pf("const Q%d_%d = %s\n", k, i, r.pick([]string{"0.1", "1.0 / 3", "3.14159265358979323846264338327950288419716939937510582097494459", "1e-7", "2.5e-3", "-0.3", "1e23 / 3", "2.0 / 7e5", "1.1e10 / 9", "0.7 + 1<<40", "6.02214076e23 / 1e30", "1 / 3.0e-20"}))
+			g.pf("const Q%d_%d = %s\n", k, i, r.pick([]string{"0.1", "1.0 / 3", "3.14159265358979323846264338327950288419716939937510582097494459", "1e-7", "2.5e-3", "-0.3", "1e23 / 3", "2.0 / 7e5", "1.1e10 / 9", "0.7 + 1<<40", "6.02214076e23 / 1e30", "1 / 3.0e-20", "0.12345678901234567890123456789012345678901234567890123456789", "1e-300", "1.7976931348623157e308 / 3", "2.2250738585072014e-308", "1e-40 + 1e40"}))
 		}
 	case "complex-const-inexact":
 		g.pf("const Z%d = %s\n", k, r.pick([]string{"0.1i", "1.5 + 0.3i", "1.0/3 - 2i", "1e-7 + 1e-7i"}))
